@@ -456,6 +456,11 @@ pub fn build(spec: &PathSpec) -> Built {
         let main_fn = root.functions.remove(0);
         root.functions.push(main_fn);
     }
+    // a module boundary where a one-card function is followed by the first function of the next
+    // module (same function index, different namespace)
+    if subs[0].functions.is_empty() && !subs[1].functions.is_empty() {
+        subs[0].functions.push(("solo".into(), Function::default().with_card(Card::return_card(Card::scalar_int(1)))));
+    }
     for (i, s) in subs.into_iter().enumerate() {
         if !s.functions.is_empty() {
             root.submodules.push((format!("sub{i}"), s));
